@@ -702,8 +702,12 @@ func (fr *Frame) execGo(st *State, x *ssa.Go) {
 		gargs = append(gargs, v)
 		fr.top.goCaps = append(fr.top.goCaps, fr.refComps(v)...)
 	}
+	fr.top.goCapVars = map[string]bool{}
 	if !x.Call.IsInvoke() {
 		if fv := fr.val(st, x.Call.Value); fv.K == KClosure {
+			for _, v := range fv.Fn.FreeVars {
+				fr.top.goCapVars[v.Name()] = true
+			}
 			for _, b := range fv.Binds {
 				if b.K == KCellPtr {
 					if cv, ok := st.cells[b.Cell]; ok {
@@ -1094,7 +1098,11 @@ func (fr *Frame) spawnViaCall(st *State, fc *FuncContract, args []Val, pos token
 	}
 	fv := args[idx]
 	fr.top.goCaps = nil
+	fr.top.goCapVars = map[string]bool{}
 	if fv.K == KClosure {
+		for _, v := range fv.Fn.FreeVars {
+			fr.top.goCapVars[v.Name()] = true
+		}
 		for _, b := range fv.Binds {
 			if b.K == KCellPtr {
 				if cv, ok := st.cells[b.Cell]; ok {
